@@ -9,7 +9,11 @@ import numpy as np
 from vcheck import gen_all, core
 from harness import oracle_net as on
 
-THEOREMS = ['C19_pins_once', 'C19_names_unique', 'C19_cell_function']
+THEOREMS = ['C19_pins_once', 'C19_names_unique', 'C19_cell_function',
+            # from the library TEXT (Model/TechLibText.v, Gen/TechLibTexts.v)
+            'C19_text_matches_translation', 'C19_expand_names_product', 'C19_expand_names_order', 'C19_names_distinct_alternatives',
+            'C19_tuples_distinct_iff', 'C19_alternatives_distinct_names', 'C19_alternatives_distinct_names_prefix_free',
+            'C19_names_collision_witness']
 
 
 # ---- independent datasheet oracle (python twin of Model/TechlibSpec.v) --------------------------------
@@ -86,11 +90,16 @@ def truth_table(circ):
 def run(ck):
     from translate import gen_techlibs
     from kyupy import techlib
-    res = gen_all.generate(['SimTables', 'TechLibs'])
+    res = gen_all.generate(['SimTables', 'TechLibs', 'TechLibTexts'])
     ck.obligation('translate techlib.py library strings -> Gen/TechLibs.v', res['TechLibs'] is None, 'translation', res['TechLibs'] or '')
+    ck.obligation('emit the five library source strings verbatim -> Gen/TechLibTexts.v', res['TechLibTexts'] is None, 'translation', res['TechLibTexts'] or '')
     ck.obligation('translate sim.py LUTs -> Gen/SimTables.v', res['SimTables'] is None, 'translation', res['SimTables'] or '')
-    ck.trust('translator translate/gen_techlibs.py: ast extraction of the five library strings and a re-implementation of '
-             'TechLib.__init__ (split, brace products, bench mini-grammar); validated below against TechLib.cells',
+    ck.trust('translator translate/gen_techlibs.py: ast extraction of the five library strings (evaluation of `+` and .replace) and their '
+             'emission as Coq string literals.  Its re-implementation of TechLib.__init__ (split, brace products, bench mini-grammar) that '
+             'produces Gen/TechLibs.v is no longer trusted: theorem C19_text_matches_translation proves that the Coq transcription of '
+             'TechLib.__init__ + bench.GRAMMAR (Model/TechLibText.v, Model/BenchText.v) computes exactly Gen/TechLibs.v from the emitted strings',
+             'modelled, not verified: TechLib.__init__ text processing (Model/TechLibText.v) -- exact correspondence with TechLib(text).cells on '
+             'generated library texts and on the five built-in libraries on every run',
              'Model/TechlibSpec.v (what a family name denotes, per library pin-grouping convention) is the specification and is trusted')
     ck.prove('C19', THEOREMS)
     fails = []
@@ -152,11 +161,50 @@ def run(ck):
                                               f'the datasheet function of the family gives {exp[r]}'))
                     break
     ck.obligation('translator output agrees with TechLib.cells (names, pin lists) for all five libraries', corr_ok and parsed is not None, 'correspondence')
+    # ---- TEXT level: TechLib(text) against tcells_of_text on generated library texts and on the built-in ones -------------
+    import random
+    from harness import bench_text as bt, circgen as cg
+    rng = random.Random(ck.seed * 7919 + 19)
+    tcases, tmeta = [], []
+    n_raise = 0
+    for _ in range(ck.scale(240, 4000)):
+        cs, d, of = bt.techlib_case(rng)
+        ck.count(1, 'libtext:' + (d['raises'] or 'ok'))
+        ck.nontrivial(('libtext', d['text'][:200]))
+        n_raise += 1 if d['raises'] else 0
+        if of:
+            fails.append(('TEXT', d['text'], of))
+        tcases += cs
+        tmeta += [d] * len(cs)
+    try:
+        cs, ds = bt.builtin_lib_cases()
+    except Exception as e:
+        cs, ds = [f'false (* {type(e).__name__} *)'], [{'kind': 'techlib-builtin', 'error': repr(e)[:300]}]
+    for d in ds:
+        ck.count(1, 'libtext:builtin')
+    chunks = [tcases[i:i + 60] for i in range(0, len(tcases), 60)] + [[c] for c in cs]
+    cmeta = [tmeta[i:i + 60] for i in range(0, len(tmeta), 60)] + [[d] for d in ds]
+    outs = ck.coq_eval_many('lt', [bt.cases_file(ch) for ch in chunks], jobs=12)
+    tbad = [cmeta[ci][j] for ci, (ok, out) in enumerate(outs) for j in ((cg.parse_nat_list(out) if ok else None) or [])]
+    tran = all(ok and cg.parse_nat_list(out) is not None for ok, out in outs)
+    terr = next((out[-600:] for ok, out in outs if not ok), '')
+    ck.obligation(f'Coq transcription of TechLib.__init__ (re.split on ";" + white space, cell name up to the first space, bench.parse, '
+                  f'eliminate_1to1_forks raising, pins from io_nodes, brace products, dict insertion) = TechLib(text).cells on {len(tcases)} generated '
+                  f'library texts ({n_raise} on which the constructor raises: both must reject) and on the five built-in library texts',
+                  tran and not tbad, 'correspondence', f'failing cases {tbad[:2]} {terr}')
+    if tbad and not fails:
+        ck.fail('model-disagrees-text', 'Coq model of TechLib.__init__ and the implementation disagree',
+                {'component': 'Model/TechLibText.v', 'input': tbad[0]}, found_input=False)
     ck.cov['exhaustive'] = True
     ck.rule('all cells of GSC180, NANGATE, NANGATE_ZN, SAED32, SAED90 (every expanded name) x all input rows; distinct = distinct implementation circuits')
     ck.sample({'library': 'NANGATE', 'cell': 'AOI221_X1', 'family': 'AOI with groups 2-2-1, single pin first', 'rows': 32})
     seen = set()
     for lib, name, what in fails:
+        if lib == 'TEXT':
+            if 'libtext' not in seen:
+                seen.add('libtext')
+                ck.fail('libtext:pin-table', f'TechLib({name[:80]!r}..): {what}', {'component': 'techlib.TechLib.__init__', 'input': {'text': name}, 'actual': what})
+            continue
         key = f'cell:{lib}:{name}'
         if key in seen:
             continue
@@ -168,6 +216,11 @@ def run(ck):
 
 def replay(rp):
     from kyupy import techlib
+    if 'text' in rp['input']:
+        from harness import bench_text as bt
+        return bt.real_techlib(rp['input']['text'])[2] is not None
+    if 'library' not in rp['input']:
+        return True
     lib, name = rp['input']['library'], rp['input']['cell']
     circ, pins = getattr(techlib, lib).cells[name]
     ins, outs, table = truth_table(circ)
